@@ -14,6 +14,7 @@ func init() {
 	vRegister("VH_C13_ClassAdReaders", VH_C13_ClassAdReaders)
 	vRegister("VH_C13_CappedConsumption", VH_C13_CappedConsumption)
 	vRegister("VH_C13_AnnouncedLength", VH_C13_AnnouncedLength)
+	vRegister("VH_C13_BoundedFraming", VH_C13_BoundedFraming)
 }
 
 // vhAdversary scripts up to three frames of symbolic length (<= maxLen each),
@@ -253,5 +254,47 @@ func VH_C13_AnnouncedLength() {
 	} else {
 		vCover("string-decoded")
 		vAssert(len(s) <= len(f1)+len(f2), "no-more-than-was-delivered")
+	}
+}
+
+// VH_C13_BoundedFraming: the size cap of the bounded ClassAd reader (used for
+// every handshake ad) counts the ad's bytes, however they are framed: one and the
+// same ad (two expressions, type names; plain or length-prefixed strings) is read
+// under an arbitrary cap (1..64) once from a single frame and once from frames of
+// k bytes (k = 1..4): same verdict, and when the cap is exceeded the reader has
+// stopped pulling frames (it has not consumed the whole oversized ad).
+//
+//verif:unwind 64
+func VH_C13_BoundedFraming() {
+	enc := vBool("enc")
+	VerifHook_parseAndInsertExpression = func(ad *classad.ClassAd, s string) error { return nil }
+	defer func() { VerifHook_parseAndInsertExpression = nil }()
+	w := &vhStream{enc: enc}
+	wm := NewMessageForStream(w)
+	if wm.PutInt(vhCtx, 2) != nil || wm.PutString(vhCtx, "Alpha = 1") != nil || wm.PutString(vhCtx, "Beta = \"two\"") != nil ||
+		wm.PutString(vhCtx, "Machine") != nil || wm.PutString(vhCtx, "Job") != nil || wm.FinishMessage(vhCtx) != nil {
+		vAssume(false)
+	}
+	wire := w.all()
+	capBytes := vInt("cap")
+	vAssume(capBytes >= 1 && capBytes <= 64)
+	k := 1 + vChoice("frame_bytes", 4)
+	one := &vhStream{enc: enc}
+	one.feed(wire, true)
+	_, err1 := getClassAdFromMessageWithMaxSize(NewMessageFromStream(one), capBytes, vhCtx)
+	many := &vhStream{enc: enc}
+	for o := 0; o < len(wire); o += k {
+		e := o + k
+		if e > len(wire) {
+			e = len(wire)
+		}
+		many.feed(wire[o:e], e == len(wire))
+	}
+	_, errN := getClassAdFromMessageWithMaxSize(NewMessageFromStream(many), capBytes, vhCtx)
+	vAssert((err1 == nil) == (errN == nil), "bounded-readers-verdict-does-not-depend-on-the-framing")
+	if errN != nil {
+		vCover("cap-exceeded")
+	} else {
+		vCover("within-cap")
 	}
 }
